@@ -1186,6 +1186,16 @@ package server
 //@   at call Get#1 before
 //@     assert [C13:uri-looked-up-under-the-id-index-key-of-exactly-this-id] len(key) == 10 && encBE16(key, 0) == IDToURIIndexID && encBE64(key, 2) == rid
 
+// the set of deleted datasets the readers filter with is the PUBLISHED one: a contextual store (made once per job with a
+// JavaScript transform) reads its parent's current set, not the reference it copied when it was created - DeleteDataset
+// publishes a new set (copy on write) in the parent only
+//@ const pubDeleted = (s.parent != nil ? s.parent.deletedDatasets : s.deletedDatasets)
+//@ inline (*Store).deletedSet
+//@ unit server.NewContextualStore
+//@   prop C07
+//@   requires store != nil
+//@   ensures [C07:a-contextual-store-filters-with-the-deleted-set-published-in-the-store-the-dataset-manager-works-on] result != nil && result.parent == (store.parent != nil ? store.parent : store) && result.database == store.database
+//@   ensures [C07:a-contextual-store-shares-the-dataset-registry] result.datasets == store.datasets && result.datasetsByInternalID == store.datasetsByInternalID && result.NamespaceManager == store.NamespaceManager
 //@ unit (*Store).GetEntityAtPointInTimeWithInternalID
 //@   prop C06 C01 C07
 //@   ghost txnG int
@@ -1196,7 +1206,7 @@ package server
 //@   ghost emittedG intset = emptyset()
 //@   requires s != nil
 //@   requires-inv [the-store-is-constructed] s != nil ==> s.MetaCtx != nil
-//@   requires-inv [existing-objects] foreign(s.deletedDatasets)
+//@   requires-inv [existing-objects] foreign(s.deletedDatasets) && (s.parent != nil ==> foreign(s.parent.deletedDatasets))
 //@   preserves Store.*, Dataset.*, DsManager.*, map[uint32]bool, RelatedFrom.*, []*server.RelatedFrom, []uint32, []server.RelatedEntityResult, RelatedEntityResult.*, []server.qresult, qresult.*, RelatedEntitiesQueryResult.*, RelatedEntitiesResult.*
 //@   safe slice
 //@   at call NewIterator#1
@@ -1208,7 +1218,7 @@ package server
 //@     use json_scan_order(txnG, accG, curG)
 //@   at call ValueCopy#1 before
 //@     assert [C06:only-versions-recorded-at-or-before-the-instant-are-candidates] krid(K(txnG, curG)) <= at && $itemKey[item] == K(txnG, curG)
-//@     assert [C07:versions-of-deleted-datasets-are-never-candidates] !(has(s.deletedDatasets, k32at10(K(txnG, curG))) && s.deletedDatasets[k32at10(K(txnG, curG))])
+//@     assert [C07:versions-of-deleted-datasets-are-never-candidates] !(has(pubDeleted, k32at10(K(txnG, curG))) && pubDeleted[k32at10(K(txnG, curG))])
 //@     assert [C01:versions-outside-the-requested-datasets-are-never-candidates] len(targetDatasetIds) == 0 || (exists k int :: 0 <= k && k < len(targetDatasetIds) && targetDatasetIds[k] == k32at10(K(txnG, curG)))
 //@     assert [C06,C01:candidates-come-in-dataset-then-time-order] accG >= 0 ==> k32at10(K(txnG, accG)) <= k32at10(K(txnG, curG)) && (k32at10(K(txnG, accG)) == k32at10(K(txnG, curG)) ==> krid(K(txnG, accG)) <= krid(K(txnG, curG)))
 //@     ghost accG := curG
@@ -1235,7 +1245,7 @@ package server
 //@     invariant previousDatasetID == 0 ==> accG == 0 - 1
 //@     invariant forall i int :: 0 <= i && i < len(partials) ==> partials[i] != nil
 //@     invariant forall d uint32 :: has(emittedG, d) ==> d < previousDatasetID
-//@     invariant [C06,C01:no-eligible-version-is-passed-over] forall j int :: pos0G <= j && j < $itPos[entityLocatorIterator] && krid(K(txnG, j)) <= at && !(has(s.deletedDatasets, k32at10(K(txnG, j))) && s.deletedDatasets[k32at10(K(txnG, j))]) && (len(targetDatasetIds) == 0 || (exists k int :: 0 <= k && k < len(targetDatasetIds) && targetDatasetIds[k] == k32at10(K(txnG, j)))) ==> j <= accG
+//@     invariant [C06,C01:no-eligible-version-is-passed-over] forall j int :: pos0G <= j && j < $itPos[entityLocatorIterator] && krid(K(txnG, j)) <= at && !(has(pubDeleted, k32at10(K(txnG, j))) && pubDeleted[k32at10(K(txnG, j))]) && (len(targetDatasetIds) == 0 || (exists k int :: 0 <= k && k < len(targetDatasetIds) && targetDatasetIds[k] == k32at10(K(txnG, j)))) ==> j <= accG
 //@   loop 2
 //@     invariant -1 <= $i && $i < len(targetDatasetIds)
 //@     invariant datasetIncluded <==> (len(targetDatasetIds) == 0 || (exists k int :: 0 <= k && k <= $i && targetDatasetIds[k] == currentDatasetID))
@@ -1362,7 +1372,7 @@ package server
 //@   requires limit >= 0
 //@   requires [index-of-the-direction] from != nil ==> encBE16(from.RelationIndexFromKey, 0) == (from.Inverse ? 2 : 3)
 //@   preserves RelatedFrom.*, Store.*, Dataset.*, DsManager.*, []uint32, []*server.RelatedFrom, RelatedEntitiesQueryResult.*, []server.RelatedEntityResult
-//@   requires-inv [existing-objects] foreign(s.deletedDatasets)
+//@   requires-inv [existing-objects] foreign(s.deletedDatasets) && (s.parent != nil ==> foreign(s.parent.deletedDatasets))
 //@   requires-inv [start-key-is-a-whole-buffer] from != nil ==> offOf(from.RelationIndexFromKey) == 0 && foreign(from.RelationIndexFromKey)
 //@   ensures [C06:continuation-pins-the-instant-and-the-query] ret2 == nil && ret1 != nil ==> ret1.At == from.At && ret1.Predicate == from.Predicate && ret1.Inverse == from.Inverse && ret1.Datasets == from.Datasets
 //@   ensures [C03,C18:incoming-page-that-filled-up-before-the-last-referrer-was-flushed-keeps-a-continuation] ret2 == nil && pendingG ==> ret1 != nil
@@ -1381,17 +1391,17 @@ package server
 //@   at $1 call append#1 before
 //@     assert [C03:incoming-results-flushed-only-when-the-newest-scanned-key-of-the-related-entity-is-live] delG[prevPredG] != 1
 //@     assert [C03:incoming-result-comes-from-a-live-reference-key] delG[prevResult.PredicateID] != 1
-//@     assert [C03,C06,C07:incoming-result-passed-the-dataset-time-and-predicate-filters] !(has(s.deletedDatasets, prevResult.DatasetID) && s.deletedDatasets[prevResult.DatasetID]) && (len(from.Datasets) == 0 || (exists k int :: 0 <= k && k < len(from.Datasets) && from.Datasets[k] == prevResult.DatasetID)) && prevResult.Time <= from.At && (from.Predicate == 0 || from.Predicate == prevResult.PredicateID)
+//@     assert [C03,C06,C07:incoming-result-passed-the-dataset-time-and-predicate-filters] !(has(pubDeleted, prevResult.DatasetID) && pubDeleted[prevResult.DatasetID]) && (len(from.Datasets) == 0 || (exists k int :: 0 <= k && k < len(from.Datasets) && from.Datasets[k] == prevResult.DatasetID)) && prevResult.Time <= from.At && (from.Predicate == 0 || from.Predicate == prevResult.PredicateID)
 //@   at $1 call append#2 before
-//@     assert [C03,C06,C07:incoming-result-passed-the-dataset-time-and-predicate-filters] !(has(s.deletedDatasets, dsResult.DatasetID) && s.deletedDatasets[dsResult.DatasetID]) && (len(from.Datasets) == 0 || (exists k int :: 0 <= k && k < len(from.Datasets) && from.Datasets[k] == dsResult.DatasetID)) && dsResult.Time <= from.At && (from.Predicate == 0 || from.Predicate == dsResult.PredicateID)
+//@     assert [C03,C06,C07:incoming-result-passed-the-dataset-time-and-predicate-filters] !(has(pubDeleted, dsResult.DatasetID) && pubDeleted[dsResult.DatasetID]) && (len(from.Datasets) == 0 || (exists k int :: 0 <= k && k < len(from.Datasets) && from.Datasets[k] == dsResult.DatasetID)) && dsResult.Time <= from.At && (from.Predicate == 0 || from.Predicate == dsResult.PredicateID)
 //@   at $1 call append#3 before
 //@     ghost appendedFinalG := true
 //@     assert [C03:incoming-results-flushed-only-when-the-newest-scanned-key-of-the-related-entity-is-live] delG[prevPredG] != 1
 //@     assert [C03:incoming-result-comes-from-a-live-reference-key] delG[prevResult.PredicateID] != 1
-//@     assert [C03,C06,C07:incoming-result-passed-the-dataset-time-and-predicate-filters] !(has(s.deletedDatasets, prevResult.DatasetID) && s.deletedDatasets[prevResult.DatasetID]) && (len(from.Datasets) == 0 || (exists k int :: 0 <= k && k < len(from.Datasets) && from.Datasets[k] == prevResult.DatasetID)) && prevResult.Time <= from.At && (from.Predicate == 0 || from.Predicate == prevResult.PredicateID)
+//@     assert [C03,C06,C07:incoming-result-passed-the-dataset-time-and-predicate-filters] !(has(pubDeleted, prevResult.DatasetID) && pubDeleted[prevResult.DatasetID]) && (len(from.Datasets) == 0 || (exists k int :: 0 <= k && k < len(from.Datasets) && from.Datasets[k] == prevResult.DatasetID)) && prevResult.Time <= from.At && (from.Predicate == 0 || from.Predicate == prevResult.PredicateID)
 //@   at $1 call append#4 before
 //@     ghost appendedFinalG := true
-//@     assert [C03,C06,C07:incoming-result-passed-the-dataset-time-and-predicate-filters] !(has(s.deletedDatasets, dsResult.DatasetID) && s.deletedDatasets[dsResult.DatasetID]) && (len(from.Datasets) == 0 || (exists k int :: 0 <= k && k < len(from.Datasets) && from.Datasets[k] == dsResult.DatasetID)) && dsResult.Time <= from.At && (from.Predicate == 0 || from.Predicate == dsResult.PredicateID)
+//@     assert [C03,C06,C07:incoming-result-passed-the-dataset-time-and-predicate-filters] !(has(pubDeleted, dsResult.DatasetID) && pubDeleted[dsResult.DatasetID]) && (len(from.Datasets) == 0 || (exists k int :: 0 <= k && k < len(from.Datasets) && from.Datasets[k] == dsResult.DatasetID)) && dsResult.Time <= from.At && (from.Predicate == 0 || from.Predicate == dsResult.PredicateID)
 //@   at $1 call Item#2
 //@     ghost curPassG := false
 //@   at $1 call Uint64#5
@@ -1408,7 +1418,7 @@ package server
 //@   at $1 call append#5 before
 //@     assert [C03:outgoing-relation-not-already-returned-by-an-earlier-page] !has(earlierG, pairKey(predID, relatedID))
 //@     assert [C03:outgoing-result-is-the-first-scanned-passing-key-of-its-predicate-target-and-dataset-and-its-relation-is-not-yet-covered] curPassG && !recBeforeG && !addBeforeG && curPG == predID && curRG == relatedID && curDG == datasetID
-//@     assert [C07:result-dataset-not-deleted] !(has(s.deletedDatasets, datasetID) && s.deletedDatasets[datasetID])
+//@     assert [C07:result-dataset-not-deleted] !(has(pubDeleted, datasetID) && pubDeleted[datasetID])
 //@     assert [C03:result-dataset-in-scope] len(from.Datasets) == 0 || (exists k int :: 0 <= k && k < len(from.Datasets) && from.Datasets[k] == datasetID)
 //@     assert [C06:result-not-recorded-after-the-requested-instant] et <= from.At
 //@     assert [C03:result-matches-the-requested-predicate] from.Predicate == 0 || from.Predicate == predID
@@ -1418,21 +1428,21 @@ package server
 //@     invariant prevResults != nil && (currentRID != 0 ==> dsSpillOver != nil)
 //@     invariant forall p uint64 :: has(prevResults, p) ==> prevResults[p].PredicateID == p
 //@     invariant currentRID != 0 ==> (prevDeleted <==> delG[prevPredG] == 1) && has(prevResults, prevPredG)
-//@     invariant forall p uint64 :: has(prevResults, p) ==> !(has(s.deletedDatasets, prevResults[p].DatasetID) && s.deletedDatasets[prevResults[p].DatasetID])
+//@     invariant forall p uint64 :: has(prevResults, p) ==> !(has(pubDeleted, prevResults[p].DatasetID) && pubDeleted[prevResults[p].DatasetID])
 //@     invariant forall p uint64 :: has(prevResults, p) ==> (len(from.Datasets) == 0 || (exists k int :: 0 <= k && k < len(from.Datasets) && from.Datasets[k] == prevResults[p].DatasetID))
 //@     invariant forall p uint64 :: has(prevResults, p) ==> prevResults[p].Time <= from.At
 //@     invariant forall p uint64 :: has(prevResults, p) ==> (from.Predicate == 0 || from.Predicate == prevResults[p].PredicateID)
-//@     invariant dsSpillOver != nil ==> (forall d uint32 :: has(dsSpillOver, d) ==> !(has(s.deletedDatasets, dsSpillOver[d].DatasetID) && s.deletedDatasets[dsSpillOver[d].DatasetID]) && (len(from.Datasets) == 0 || (exists k int :: 0 <= k && k < len(from.Datasets) && from.Datasets[k] == dsSpillOver[d].DatasetID)) && dsSpillOver[d].Time <= from.At && (from.Predicate == 0 || from.Predicate == dsSpillOver[d].PredicateID))
+//@     invariant dsSpillOver != nil ==> (forall d uint32 :: has(dsSpillOver, d) ==> !(has(pubDeleted, dsSpillOver[d].DatasetID) && pubDeleted[dsSpillOver[d].DatasetID]) && (len(from.Datasets) == 0 || (exists k int :: 0 <= k && k < len(from.Datasets) && from.Datasets[k] == dsSpillOver[d].DatasetID)) && dsSpillOver[d].Time <= from.At && (from.Predicate == 0 || from.Predicate == dsSpillOver[d].PredicateID))
 //@   loop $1:2
 //@     invariant -1 <= $i && $i < len(from.Datasets)
 //@     invariant datasetIncluded <==> (len(from.Datasets) == 0 || (exists k int :: 0 <= k && k <= $i && from.Datasets[k] == datasetID))
 //@   loop $1:4
 //@     invariant prevResults != nil && dsSpillOver != nil
-//@     invariant forall p uint64 :: has(prevResults, p) ==> !(has(s.deletedDatasets, prevResults[p].DatasetID) && s.deletedDatasets[prevResults[p].DatasetID])
+//@     invariant forall p uint64 :: has(prevResults, p) ==> !(has(pubDeleted, prevResults[p].DatasetID) && pubDeleted[prevResults[p].DatasetID])
 //@     invariant forall p uint64 :: has(prevResults, p) ==> (len(from.Datasets) == 0 || (exists k int :: 0 <= k && k < len(from.Datasets) && from.Datasets[k] == prevResults[p].DatasetID))
 //@     invariant forall p uint64 :: has(prevResults, p) ==> prevResults[p].Time <= from.At
 //@     invariant forall p uint64 :: has(prevResults, p) ==> (from.Predicate == 0 || from.Predicate == prevResults[p].PredicateID)
-//@     invariant forall d uint32 :: has(dsSpillOver, d) ==> !(has(s.deletedDatasets, dsSpillOver[d].DatasetID) && s.deletedDatasets[dsSpillOver[d].DatasetID]) && (len(from.Datasets) == 0 || (exists k int :: 0 <= k && k < len(from.Datasets) && from.Datasets[k] == dsSpillOver[d].DatasetID)) && dsSpillOver[d].Time <= from.At && (from.Predicate == 0 || from.Predicate == dsSpillOver[d].PredicateID)
+//@     invariant forall d uint32 :: has(dsSpillOver, d) ==> !(has(pubDeleted, dsSpillOver[d].DatasetID) && pubDeleted[dsSpillOver[d].DatasetID]) && (len(from.Datasets) == 0 || (exists k int :: 0 <= k && k < len(from.Datasets) && from.Datasets[k] == dsSpillOver[d].DatasetID)) && dsSpillOver[d].Time <= from.At && (from.Predicate == 0 || from.Predicate == dsSpillOver[d].PredicateID)
 //@   loop $1:5
 //@     invariant forall p uint64 :: visited(p) ==> appendedFinalG
 //@   loop $1:6
